@@ -9,5 +9,6 @@ CONSTANTS
   Ops <- MC_OpsDeps
   ReqVers <- MC_V12
   Lazies <- MC_Eager
+  Dev = {}
   Known <- MC_KnownDesign
 CHECK_DEADLOCK FALSE
